@@ -109,6 +109,7 @@ fn c10_instant(sys: &System) -> impl Fn(&Files) -> Option<(String, String)> + Sy
                             continue;
                         }
                         let body = if well_formed { content.clone() } else { streamed };
+                        let path = &canon_path(path);
                         let cbase = format!("{path}.conflict-{}", short(&h(&body)));
                         let numbered = p.strip_prefix(cbase.as_str()).is_some_and(|r| r.len() > 1 && r.starts_with('-') && r[1..].chars().all(|c| c.is_ascii_digit()));
                         if (p == path || *p == cbase || numbered) && *bytes == body {
@@ -326,6 +327,21 @@ fn late_and_leftover_systems() -> Vec<PairSpec> {
     v
 }
 
+/// Two clients naming the SAME file with different spellings of its path (`f`, `./f`, `.//f`; `d/x`, `d//x`, `d/./x`).
+fn alias_systems() -> Vec<PairSpec> {
+    let mut v = Vec::new();
+    for (a, b) in [("f", "./f"), ("./f", ".//f")] {
+        let cur = Exp::HashOf(C0.to_vec());
+        v.push(PairSpec { name: format!("Put({a}) || Put({b}) on {{f:c0}}"), sys: System { init: init_tree(true), programs: vec![vec![put(a, cur.clone(), X)], vec![put(b, cur.clone(), Y)]], external: vec![], late: vec![] } });
+    }
+    let mut init = Files::new();
+    init.insert("d/x".into(), b"dx".to_vec());
+    let cur = Exp::HashOf(b"dx".to_vec());
+    v.push(PairSpec { name: "Put(d/x) || Put(d//x) on {d/x}".into(), sys: System { init: init.clone(), programs: vec![vec![put("d/x", cur.clone(), X)], vec![put("d//x", cur.clone(), Y)]], external: vec![], late: vec![] } });
+    v.push(PairSpec { name: "Put(d/./x) || Delete(d/x) on {d/x}".into(), sys: System { init, programs: vec![vec![put("d/./x", cur.clone(), X)], vec![Op::Delete { path: "d/x".into(), expected: cur }]], external: vec![], late: vec![] } });
+    v
+}
+
 /// A stale write whose natural conflict-copy name already holds OTHER content (somebody committed to that very
 /// path): neither content may vanish.
 fn occupied_systems() -> Vec<PairSpec> {
@@ -418,6 +434,7 @@ pub fn run(ctx: &Ctx, which: &str) -> ! {
         specs.extend(dir_systems());
         specs.extend(late_and_leftover_systems());
         specs.extend(occupied_systems());
+        specs.extend(alias_systems());
         specs.extend(big_content_systems(true));
         let Some(spec) = specs.into_iter().find(|s| s.name == name) else { machinery_error(format!("unknown program pair {name}")) };
         let env = envs[0].lock().unwrap_or_else(|e| e.into_inner());
@@ -501,6 +518,9 @@ pub fn run(ctx: &Ctx, which: &str) -> ! {
         run_spec(&spec, if thorough { 2 } else { 1 }, false, &mut tot, &mut violations, &mut sample);
     }
     for spec in late_and_leftover_systems() {
+        run_spec(&spec, 2, false, &mut tot, &mut violations, &mut sample);
+    }
+    for spec in alias_systems() {
         run_spec(&spec, 2, false, &mut tot, &mut violations, &mut sample);
     }
     for spec in occupied_systems() {
